@@ -131,6 +131,16 @@ func TestC06(t *testing.T) {
 		}
 
 		var res qframe.QFrame
+		if rapid.IntRange(0, 3).Draw(t, "secondcall") == 0 {
+			// the same instruction values applied to the same receiver a second time: that result counts
+			_ = hx.Safely(func() {
+				if mode == "filtered" {
+					_ = recv.FilteredApply(clause.Build(hx.KindMap(in)), real...)
+				} else {
+					_ = recv.Apply(real...)
+				}
+			})
+		}
 		if perr := hx.Safely(func() {
 			if mode == "filtered" {
 				res = recv.FilteredApply(clause.Build(hx.KindMap(in)), real...)
